@@ -18,7 +18,7 @@ from vlib.dev_harness import DevHarness
 LEVEL = "exploration"
 TECHNIQUE = "runtime monitor: reference timer/counter model compared with device state probed on the virtual clock"
 LEVEL_TEXT = (
-    "Generated telegram histories (quick 520, thorough 16 x 600; 3..14 telegrams each) for Switch(reset_after), BinarySensor(reset_after) and "
+    "Generated telegram histories (quick 520, thorough 16 x 8000; 3..14 telegrams each) for Switch(reset_after), BinarySensor(reset_after) and "
     "BinarySensor(context_timeout) over invert / state-address / ignore_internal_state / always_callback options, telegram kinds (write, response, "
     "own command, state address), value-unchanged repeats, gaps drawn around the configured times (fractions, just below, just above, far beyond). "
     "Exploration: histories are sampled."
@@ -366,7 +366,7 @@ def run(ctx):
                 "probe_window-eps", "probe_window", "telegram_on", "telegram_off", "how_command", "how_write", "how_response",
                 "response_judged", "response_on_while_on_must_restart_timer", "write_on_while_on_must_restart_timer",
                 "response_ignored_for_counting", "response_counted_like_a_write")
-    n = ctx.scale(520, 600 * 16)
+    n = ctx.scale(520, 8000 * 16)
     for i in range(n):
         if not ctx.mine(i):
             continue
